@@ -13,7 +13,7 @@
      X kind fs app br vbr frq maxb nfr loss fmt cx seed | layout
           kind enc: layout = ch S C m1..   kind surr / penc: layout = f ch
           frq = packet duration in 2.5 ms units; loss = bit mask of packets dropped on the way
-          (bit i%30); fmt = sample format given to the encoder (0 int16, 1 int24, 2 float)
+          (bit i%30); fmt = sample format given to the encoder (0 int16, 1 int24, 2 float; +10: loud signal)
      H fs frq S C nfr variant seed | ch m1 .. m_ch
           packets put together from S independently coded streams (variant 1: one stream of a
           different duration, 2: every stream padded / split in two frames)
@@ -155,6 +155,7 @@ typedef struct {
    OpusDecoder **sd[3];            /* [fmt][stream] */
    /* tone statistics per decoded channel (slot) from the float stand-alone outputs */
    double *tre, *tim; long tpos; long tskip; long tcount;
+   int minc;                       /* lowest TOC configuration number of any sub-packet decoded so far (32: none) */
 } rig_t;
 
 static int slot_base(const rig_t *g, int s) { return s < g->C ? 2 * s : s + g->C; }
@@ -163,7 +164,7 @@ static int rig_open(rig_t *g, int fs, int ch, int S, int C, const unsigned char 
 {
    int f, s, err;
    memset(g, 0, sizeof *g);
-   g->ch = ch; g->S = S; g->C = C; g->fs = fs; g->cap = fs / 25 * 3;
+   g->ch = ch; g->S = S; g->C = C; g->fs = fs; g->cap = fs / 25 * 3; g->minc = 32;
    memcpy(g->map, map, ch);
    for (f = 0; f < 3; f++) {
       g->md[f] = opus_multistream_decoder_create(fs, ch, S, C, map, &err);
@@ -293,6 +294,7 @@ static void do_packet(rig_t *g, const char *kind, int x, int idx, const unsigned
       nsplit = s + 1;
       if (cnt <= 0) { split_ok = 0; sk[s] = cnt; if (known_offs) continue; else break; }
       sk[s] = ko; sp[s] = po; sc[s] = cnt; sl[s] = size[cnt - 1];
+      if ((toc >> 3) < g->minc) g->minc = toc >> 3;
       if (s != S - 1) {
          int kk = size[cnt - 1] < 252 ? 1 : 2;
          stdn[s] = ko - kk; stdp[s] = (unsigned char *)malloc(stdn[s] > 0 ? stdn[s] : 1);
@@ -382,6 +384,7 @@ done:
 }
 
 /* ---------------------------------------------------------------- signals */
+static double g_amp = 0.25;      /* tone amplitude; 1.4 in "loud" executions (decoded peaks beyond full scale: soft clipping, saturation) */
 static void gen_frame(float *x, int ch, int n, long pos, int fs, const int *ct, uint64_t seed)
 {
    int c, i;
@@ -389,7 +392,7 @@ static void gen_frame(float *x, int ch, int n, long pos, int fs, const int *ct, 
       hx_rng r; double f = TONE_HZ[ct[c]];
       r.s = seed * 1000003ULL + (uint64_t)c * 7919ULL + (uint64_t)pos;
       for (i = 0; i < n; i++) {
-         double v = 0.25 * sin(2 * M_PI * f * (double)(pos + i) / fs + 0.37 * c) + 0.0008 * (hx_unit(&r) * 2 - 1);
+         double v = g_amp * sin(2 * M_PI * f * (double)(pos + i) / fs + 0.37 * c) + 0.0008 * (hx_unit(&r) * 2 - 1);
          x[(size_t)i * ch + c] = (float)v;
       }
    }
@@ -412,6 +415,7 @@ static int run_x(char *line)
    if (sscanf(line, "X %15s %d %d %d %d %d %d %d %d %d %d %lu", kind, &fs, &app, &br, &vbr, &frq, &maxb, &nfr, &loss, &fmt, &cx, &seed) != 12) return -1;
    na = read_ints(bar + 1, a, MAXCH + 8);
    memset(map, 0, sizeof map);
+   g_amp = fmt >= 10 ? 1.4 : 0.25; fmt %= 10;      /* fmt 10..12: the same formats, loud signal */
    if (!strcmp(kind, "enc")) {
       if (na < 4) return -1;
       ch = (int)a[0]; S = (int)a[1]; C = (int)a[2];
@@ -457,7 +461,11 @@ static int run_x(char *line)
    for (pk = 0; pk < nfr; pk++) {
       int n, k;
       gen_frame(in, ch, fr, (long)pk * fr, fs, ct, seed);
-      for (k = 0; k < fr * ch; k++) { in16[k] = (opus_int16)lrint(in[k] * 32768.0); in24[k] = (opus_int32)lrint(in[k] * 8388608.0); }
+      for (k = 0; k < fr * ch; k++) {
+         double v16 = in[k] * 32768.0, v24 = in[k] * 8388608.0;
+         in16[k] = (opus_int16)lrint(v16 > 32767 ? 32767 : v16 < -32768 ? -32768 : v16);
+         in24[k] = (opus_int32)lrint(v24 > 8388607 ? 8388607 : v24 < -8388608 ? -8388608 : v24);
+      }
       hx_arm(120);
       if (me) n = fmt == 0 ? opus_multistream_encode(me, in16, fr, out.p, maxb) : fmt == 1 ? opus_multistream_encode24(me, in24, fr, out.p, maxb)
                                                                                  : opus_multistream_encode_float(me, in, fr, out.p, maxb);
@@ -504,14 +512,14 @@ static int run_x(char *line)
          js_open("tn"); js_str("t", kind); js_int("x", g_exno); js_int("f", fam); js_int("ch", ch); js_int("S", S); js_int("C", C);
          for (i = 0; i < ch; i++) mi[i] = map[i];
          js_key("map"); js_ints(mi, ch); js_int("fs", fs); js_int("br", br); js_int("brc", brc); js_int("vbr", vbr); js_int("fr", fr); js_int("maxb", maxb);
-         js_int("ms", (long)(g.tcount > g.tskip ? (g.tcount - g.tskip) : 0) * 1000 / fs); js_int("loss", loss);
+         js_int("ms", (long)(g.tcount > g.tskip ? (g.tcount - g.tskip) : 0) * 1000 / fs); js_int("loss", loss); js_int("minc", g.minc);
          js_key("ct"); js_ints(ct, ch); js_key("si"); js_ints(si, nsl); js_key("sm"); js_ints(sm, nsl);
          js_close();
       } else if (pre) {
          int f, c;
          js_open("pt"); js_str("t", kind); js_int("x", g_exno); js_int("f", fam); js_int("ch", ch); js_int("S", S); js_int("C", C);
          js_int("fs", fs); js_int("br", br); js_int("brc", brc); js_int("vbr", vbr); js_int("fr", fr); js_int("maxb", maxb); js_int("fmt", fmt);
-         js_int("ms", (long)(ppos > g.tskip ? (ppos - g.tskip) : 0) * 1000 / fs); js_int("loss", loss);
+         js_int("ms", (long)(ppos > g.tskip ? (ppos - g.tskip) : 0) * 1000 / fs); js_int("loss", loss); js_int("minc", g.minc);
          js_key("ct"); js_ints(ct, ch);
          js_key("po"); putchar('[');
          for (f = 0; f < 3; f++) { if (f) putchar(','); putchar('['); for (c = 0; c < ch; c++) { int b, m; tone_result(pre + ((size_t)f * ch + c) * NTONE, pim + ((size_t)f * ch + c) * NTONE, &b, &m); printf(c ? ",%d" : "%d", b); } putchar(']'); }
@@ -550,6 +558,7 @@ static int run_h(char *line)
    if (rig_open(&g, fs, ch, S, C, map) < 0) { js_open("ef"); js_int("x", g_exno); js_str("t", "hand"); js_str("at", "rig"); js_close(); return 0; }
    g.tskip = 1L << 40;
    r.s = seed;
+   g_amp = (seed % 3 == 0) ? 1.4 : 0.25;
    fr = fs / 400 * frq;
    enc = (OpusEncoder **)calloc(S, sizeof(OpusEncoder *)); ct = (int *)calloc(2 * S, sizeof(int)); halves = (int *)calloc(S, sizeof(int));
    for (s = 0; s < S; s++) {
